@@ -33,7 +33,7 @@ pub struct Fold {
 
     /// Precision to use when printing SFS.
     #[clap(short = 'p', long, default_value_t = 6, value_name = "INT")]
-    pub precision: usize,
+    pub precision: u16,
 }
 
 #[derive(ValueEnum, Clone, Copy, Debug, Eq, PartialEq)]
@@ -68,7 +68,7 @@ impl Fold {
         scs = scs.fold().into_spectrum(f64::from(self.fill));
 
         spectrum::io::write::Builder::default()
-            .set_precision(self.precision)
+            .set_precision(usize::from(self.precision))
             .write_to_path_or_stdout(self.output, &scs)?;
 
         Ok(())
